@@ -26,7 +26,7 @@ Proof.
     + cbn [firstn skipn app]. f_equal. exact (IH k x H).
 Qed.
 
-Lemma take_spec : forall n (t a b : bytes),
+Lemma agf_take_spec : forall n (t a b : bytes),
   take n t = Some (a, b) -> t = a ++ b /\ length a = n.
 Proof.
   intros n t a b H. unfold take in H.
@@ -52,12 +52,12 @@ Qed.
 
 (** * Decimal work factors *)
 
-Lemma digit_byte_b2n : forall d, (d < 10)%N -> b2n (digit_byte d) = (48 + d)%N.
+Lemma agf_digit_byte_b2n : forall d, (d < 10)%N -> b2n (digit_byte d) = (48 + d)%N.
 Proof. intros d H. unfold digit_byte. apply Base64Facts.b2n_n2b_small. lia. Qed.
 
 Lemma is_digit_digit_byte : forall d, (d < 10)%N -> is_digit (digit_byte d) = true.
 Proof.
-  intros d H. unfold is_digit. rewrite digit_byte_b2n by exact H.
+  intros d H. unfold is_digit. rewrite agf_digit_byte_b2n by exact H.
   apply andb_true_iff. split; apply N.leb_le; lia.
 Qed.
 
@@ -108,9 +108,9 @@ Proof.
   - rewrite Nat2N.inj_succ, N.pow_succ_r' in H. cbn [Base.dec_fuel].
     destruct (N.ltb n 10) eqn:E.
     + apply N.ltb_lt in E. unfold atoi. cbn [fold_left].
-      rewrite digit_byte_b2n by lia. f_equal. lia.
+      rewrite agf_digit_byte_b2n by lia. f_equal. lia.
     + apply N.ltb_ge in E. rewrite IH by lia. cbn [fold_left].
-      rewrite digit_byte_b2n by lia. f_equal. lia.
+      rewrite agf_digit_byte_b2n by lia. f_equal. lia.
 Qed.
 
 Lemma decN_head : forall f n acc,
@@ -122,7 +122,7 @@ Proof.
   - rewrite Nat2N.inj_succ, N.pow_succ_r' in H. cbn [Base.dec_fuel].
     destruct (N.ltb n 10) eqn:E.
     + apply N.ltb_lt in E. exists (digit_byte (n mod 10)), acc. split; [reflexivity|].
-      intros Heq. apply (f_equal b2n) in Heq. rewrite digit_byte_b2n in Heq by lia.
+      intros Heq. apply (f_equal b2n) in Heq. rewrite agf_digit_byte_b2n in Heq by lia.
       change (b2n x30) with 48%N in Heq. lia.
     + apply N.ltb_ge in E. apply IH; lia.
 Qed.
@@ -256,7 +256,7 @@ Section AgeFacts.
     intros rs tape pl H. apply plan_encrypt_inv in H.
     destruct H as (_ & fk & t1 & ss & t2 & nonce & t3 & Hk & _ & Hn & ->).
     cbn [ep_header ep_stanzas ep_file_key ep_nonce].
-    apply take_spec in Hk. apply take_spec in Hn.
+    apply agf_take_spec in Hk. apply agf_take_spec in Hn.
     split; [reflexivity|]. split; [exact (proj2 Hk)|exact (proj2 Hn)].
   Qed.
 
@@ -372,7 +372,7 @@ Section AgeFacts.
         forall junk, wrap_x25519_like P ty label pre tweak their fk (seg ++ junk) = Ok (st, l, junk)).
     { intros ty label pre tweak their Hw. apply wrap_like_inv in Hw.
       destruct Hw as (eph & our & ss & Ht & Ho & Hs & -> & ->).
-      apply take_spec in Ht. destruct Ht as [Ht Hl].
+      apply agf_take_spec in Ht. destruct Ht as [Ht Hl].
       exists eph. split; [exact Ht|]. split; [exact Hl|]. intros junk.
       apply (wrap_like_intro _ _ _ _ _ _ _ eph junk our ss); try assumption.
       apply take_app. exact Hl. }
@@ -381,8 +381,8 @@ Section AgeFacts.
     - destruct (take 16 tape) as [[salt t1]|] eqn:E1; [|discriminate H].
       destruct (take 16 t1) as [[rnd t2]|] eqn:E2; [|discriminate H].
       injection H as <- <- <-.
-      apply take_spec in E1. destruct E1 as [E1 L1].
-      apply take_spec in E2. destruct E2 as [E2 L2].
+      apply agf_take_spec in E1. destruct E1 as [E1 L1].
+      apply agf_take_spec in E2. destruct E2 as [E2 L2].
       exists (salt ++ rnd). split; [rewrite E1, E2, app_assoc; reflexivity|].
       split; [rewrite app_length; lia|]. intros junk.
       rewrite <- app_assoc, (take_app 16 salt (rnd ++ junk) L1), (take_app 16 rnd junk L2).
@@ -390,7 +390,7 @@ Section AgeFacts.
     - apply Hlike. exact H.
     - destruct (take 32 tape) as [[coins t1]|] eqn:E1; [|discriminate H].
       injection H as <- <- <-.
-      apply take_spec in E1. destruct E1 as [E1 L1].
+      apply agf_take_spec in E1. destruct E1 as [E1 L1].
       exists coins. split; [exact E1|]. split; [exact L1|]. intros junk.
       rewrite (take_app 32 coins junk L1). reflexivity.
     - destruct fails; [discriminate H|]. injection H as <- <- <-.
@@ -445,8 +445,8 @@ Section AgeFacts.
     intros rs tape pl H. apply plan_encrypt_inv in H.
     destruct H as (_ & fk & t1 & ss & t2 & nonce & t3 & Hk & Hw & Hn & ->).
     cbn [ep_header ep_stanzas ep_file_key ep_nonce ep_tape].
-    apply take_spec in Hk. destruct Hk as [Hk Lk].
-    apply take_spec in Hn. destruct Hn as [Hn Ln].
+    apply agf_take_spec in Hk. destruct Hk as [Hk Lk].
+    apply agf_take_spec in Hn. destruct Hn as [Hn Ln].
     apply wrap_all_each in Hw. destruct Hw as (results & He & Hs). cbn [app] in Hs.
     destruct (wrap_each_segs _ _ _ _ _ He) as (segs & Ht & Hm & Hlen & Hnth).
     exists segs. split; [|split; [exact Lk|split; [exact Ln|split; [exact Hm|]]]].
@@ -497,4 +497,486 @@ Section AgeFacts.
     repeat rewrite app_length in Ht. rewrite agf_length_concat, Hm in Ht. lia.
   Qed.
 
+  (** * multiUnwrap and Identity.Unwrap *)
+
+  Lemma mu_skip : forall f s rest,
+    fst (f s) = Err EIncorrect ->
+    fst (multi_unwrap f (s :: rest)) = fst (multi_unwrap f rest).
+  Proof.
+    intros f s rest H. cbn [multi_unwrap]. destruct (f s) as [r w]. cbn [fst] in H. subst r.
+    destruct (multi_unwrap f rest) as [r' w']. reflexivity.
+  Qed.
+
+  Lemma mu_hit : forall f s rest,
+    fst (f s) <> Err EIncorrect ->
+    fst (multi_unwrap f (s :: rest)) = fst (f s).
+  Proof.
+    intros f s rest H. cbn [multi_unwrap]. destruct (f s) as [r w]. cbn [fst] in *.
+    destruct r as [a|c|n]; try reflexivity. destruct c; try reflexivity. contradiction.
+  Qed.
+
+  Lemma mu_skip_app : forall f before rest,
+    Forall (fun s => fst (f s) = Err EIncorrect) before ->
+    fst (multi_unwrap f (before ++ rest)) = fst (multi_unwrap f rest).
+  Proof.
+    intros f before rest H. induction H as [|s before Hs _ IH]; [reflexivity|].
+    cbn [app]. rewrite mu_skip by exact Hs. exact IH.
+  Qed.
+
+  Lemma mu_filter : forall f ss,
+    fst (multi_unwrap f ss)
+    = fst (multi_unwrap f
+             (filter (fun s => negb (match fst (f s) with Err EIncorrect => true | _ => false end)) ss)).
+  Proof.
+    intros f. induction ss as [|s rest IH]; [reflexivity|].
+    cbn [filter].
+    destruct (match fst (f s) with Err EIncorrect => true | _ => false end) eqn:E; cbn [negb].
+    - assert (Hs : fst (f s) = Err EIncorrect).
+      { destruct (fst (f s)) as [a|c|n]; try discriminate E. destruct c; try discriminate E.
+        reflexivity. }
+      rewrite mu_skip by exact Hs. exact IH.
+    - assert (Hs : fst (f s) <> Err EIncorrect).
+      { intros Hc. rewrite Hc in E. discriminate E. }
+      rewrite !mu_hit by exact Hs. reflexivity.
+  Qed.
+
+  Lemma unwrap_multi : forall i ss,
+    (match i with IScrypt _ _ => length ss = 1 | IStub _ => False | _ => True end) ->
+    unwrap P i ss = multi_unwrap (unwrap_one P i) ss.
+  Proof.
+    intros i ss H. destruct i as [sec pub|pass m|blob sec pub|blob|ans];
+      cbn [unwrap unwrap_one]; try reflexivity; [|contradiction].
+    rewrite H. cbn [Nat.eqb negb]. rewrite andb_false_r. reflexivity.
+  Qed.
+
+  Lemma skipped_stanzas_irrelevant :
+    forall (i : identity) (ss ss' : list stanza),
+      (match i with IScrypt _ _ => False | IStub _ => False | _ => True end) ->
+      filter (fun s => negb (match fst (unwrap_one P i s) with Err EIncorrect => true | _ => false end)) ss
+      = filter (fun s => negb (match fst (unwrap_one P i s) with Err EIncorrect => true | _ => false end)) ss' ->
+      fst (unwrap P i ss) = fst (unwrap P i ss').
+  Proof.
+    intros i ss ss' Hi Hf.
+    rewrite !unwrap_multi by (destruct i; solve [contradiction|exact I]).
+    rewrite (mu_filter _ ss), (mu_filter _ ss'), Hf. reflexivity.
+  Qed.
+
+  (** * Decrypt *)
+
+  Lemma decrypt_open_Ok_inv : forall ids file o n e w,
+    decrypt_open P ids file = (Ok o, n, e, w) ->
+    exists h payload fk,
+      parse file = Ok (h, payload) /\
+      identity_loop P ids (h_stanzas h) 0 0 [] = (Ok fk, n, e, w) /\
+      header_mac P fk (h_stanzas h) = h_mac h /\
+      stream_nonce_size <= length payload /\
+      o = mkDecOpen (stream_key P fk (firstn stream_nonce_size payload))
+                    (skipn stream_nonce_size payload) fk n.
+  Proof.
+    intros ids file o n e w H. unfold decrypt_open in H.
+    destruct ids as [|i0 ids0]; [discriminate H|].
+    destruct (parse file) as [[h payload]|c|k]; try discriminate H.
+    destruct (identity_loop P (i0 :: ids0) (h_stanzas h) 0 0 []) as [[[r n'] e'] w'] eqn:El.
+    destruct r as [fk|c|k]; try discriminate H.
+    destruct (bytes_eqb (header_mac P fk (h_stanzas h)) (h_mac h)) eqn:Em;
+      cbn [negb] in H; [|discriminate H].
+    destruct (Nat.ltb (length payload) stream_nonce_size) eqn:En; [discriminate H|].
+    injection H as <- <- <- <-.
+    exists h, payload, fk. apply bytes_eqb_eq in Em. apply Nat.ltb_ge in En.
+    repeat split; assumption.
+  Qed.
+
+  Lemma decrypt_open_Ok_intro : forall ids file h payload fk n e w,
+    ids <> [] ->
+    parse file = Ok (h, payload) ->
+    identity_loop P ids (h_stanzas h) 0 0 [] = (Ok fk, n, e, w) ->
+    header_mac P fk (h_stanzas h) = h_mac h ->
+    stream_nonce_size <= length payload ->
+    decrypt_open P ids file =
+      (Ok (mkDecOpen (stream_key P fk (firstn stream_nonce_size payload))
+                     (skipn stream_nonce_size payload) fk n), n, e, w).
+  Proof.
+    intros ids file h payload fk n e w Hne Hp Hl Hm Hn. unfold decrypt_open.
+    destruct ids as [|i0 ids0]; [contradiction|].
+    rewrite Hp, Hl, Hm, bytes_eqb_refl. cbn [negb].
+    apply Nat.ltb_ge in Hn. rewrite Hn. reflexivity.
+  Qed.
+
+  (** ** C03: header integrity *)
+
+  Lemma mwm_inj : forall s1 s2,
+    forallb wf_stanza s1 = true -> forallb wf_stanza s2 = true ->
+    marshal_without_mac s1 = marshal_without_mac s2 -> s1 = s2.
+  Proof.
+    intros s1 s2 H1 H2 Heq.
+    assert (W1 : wf_header (mkHeader s1 (repeat x00 32)) = true)
+      by (apply wf_header_spec; split; [exact H1|reflexivity]).
+    assert (W2 : wf_header (mkHeader s2 (repeat x00 32)) = true)
+      by (apply wf_header_spec; split; [exact H2|reflexivity]).
+    pose proof (marshal_parse _ [] W1) as P1. pose proof (marshal_parse _ [] W2) as P2.
+    assert (E : marshal (mkHeader s1 (repeat x00 32)) = marshal (mkHeader s2 (repeat x00 32))).
+    { unfold marshal. cbn [h_stanzas h_mac]. rewrite Heq. reflexivity. }
+    rewrite E, P2 in P1. injection P1 as ->. reflexivity.
+  Qed.
+
+  Lemma header_bound :
+    forall (h h' : header) (fk rest : bytes) (ids : list identity) (o : dec_open) n e w,
+      wf_header h = true ->
+      h_mac h = header_mac P fk (h_stanzas h) ->
+      wf_header h' = true -> h' <> h ->
+      decrypt_open P ids (marshal h' ++ rest) = (Ok o, n, e, w) ->
+      do_file_key o <> fk \/
+      (h_stanzas h' <> h_stanzas h /\
+       hmac P (hkdf32 P fk [] header_info) (marshal_without_mac (h_stanzas h')) = h_mac h' /\
+       marshal_without_mac (h_stanzas h') <> marshal_without_mac (h_stanzas h)).
+  Proof.
+    intros h h' fk rest ids o n e w Hwf Hmac Hwf' Hne Hd.
+    apply decrypt_open_Ok_inv in Hd.
+    destruct Hd as (h1 & payload & fk' & Hp & _ & Hm & _ & ->).
+    rewrite (marshal_parse h' rest Hwf') in Hp. injection Hp as <- <-.
+    cbn [do_file_key].
+    destruct (list_eq_dec Byte.byte_eq_dec fk' fk) as [->|Hk]; [right|left; exact Hk].
+    assert (Hst : h_stanzas h' <> h_stanzas h).
+    { intros Heq. apply Hne. destruct h as [s m], h' as [s' m']. cbn [h_stanzas h_mac] in *.
+      subst s'. rewrite Hmac, Hm. reflexivity. }
+    split; [exact Hst|]. split; [exact Hm|].
+    intros Heq. apply Hst.
+    apply wf_header_spec in Hwf. apply wf_header_spec in Hwf'.
+    exact (mwm_inj _ _ (proj1 Hwf') (proj1 Hwf) Heq).
+  Qed.
+
+  Lemma unparseable_no_reader :
+    forall (ids : list identity) (file : bytes) c,
+      parse file = Err c ->
+      fst (fst (fst (decrypt_open P ids file))) = Err EHeader \/
+      fst (fst (fst (decrypt_open P ids file))) = Err EArgs.
+  Proof.
+    intros ids file c H. unfold decrypt_open. destruct ids as [|i0 ids0].
+    - right. reflexivity.
+    - left. rewrite H. reflexivity.
+  Qed.
+
+  Lemma other_recipients_edit :
+    forall (h h' : header) (fk rest : bytes) (i : identity) (o : dec_open) n e w,
+      (match i with IScrypt _ _ => False | IStub _ => False | _ => True end) ->
+      wf_header h = true ->
+      h_mac h = header_mac P fk (h_stanzas h) ->
+      fst (unwrap P i (h_stanzas h)) = Ok fk ->
+      wf_header h' = true -> h' <> h ->
+      filter (fun s => negb (match fst (unwrap_one P i s) with Err EIncorrect => true | _ => false end)) (h_stanzas h)
+      = filter (fun s => negb (match fst (unwrap_one P i s) with Err EIncorrect => true | _ => false end)) (h_stanzas h') ->
+      decrypt_open P [i] (marshal h' ++ rest) = (Ok o, n, e, w) ->
+      h_stanzas h' <> h_stanzas h /\
+      hmac P (hkdf32 P fk [] header_info) (marshal_without_mac (h_stanzas h')) = h_mac h' /\
+      marshal_without_mac (h_stanzas h') <> marshal_without_mac (h_stanzas h).
+  Proof.
+    intros h h' fk rest i o n e w Hi Hwf Hmac Hu Hwf' Hne Hf Hd.
+    destruct (header_bound h h' fk rest [i] o n e w Hwf Hmac Hwf' Hne Hd) as [Hk|Hr];
+      [exfalso|exact Hr].
+    apply Hk. apply decrypt_open_Ok_inv in Hd.
+    destruct Hd as (h1 & payload & fk' & Hp & Hl & _ & _ & ->).
+    rewrite (marshal_parse h' rest Hwf') in Hp. injection Hp as <- <-.
+    cbn [do_file_key]. cbn [identity_loop] in Hl.
+    rewrite (skipped_stanzas_irrelevant i _ _ Hi Hf) in Hu.
+    destruct (unwrap P i (h_stanzas h')) as [r w0]. cbn [fst] in Hu. subst r.
+    destruct fk as [|b fk0]; [discriminate Hl|]. injection Hl as <- _ _ _. reflexivity.
+  Qed.
+
+  Lemma identity_loop_pre : forall pre i post ss fk c e w,
+    Forall (fun j => fst (unwrap P j ss) = Err EIncorrect) pre ->
+    fst (unwrap P i ss) = Ok fk -> fk <> [] ->
+    exists w', identity_loop P (pre ++ i :: post) ss c e w
+               = (Ok fk, S (length pre + c), length pre + e, w').
+  Proof.
+    induction pre as [|j pre IH]; intros i post ss fk c e w Hpre Hi Hne.
+    - cbn [app identity_loop length Nat.add].
+      destruct (unwrap P i ss) as [r w0]. cbn [fst] in Hi. subst r.
+      destruct fk as [|b fk0]; [contradiction|]. eexists. reflexivity.
+    - cbn [app identity_loop length Nat.add].
+      pose proof (Forall_inv Hpre) as Hj. pose proof (Forall_inv_tail Hpre) as Hpre'.
+      cbn beta in Hj. destruct (unwrap P j ss) as [r w0]. cbn [fst] in Hj. subst r.
+      destruct (IH i post ss fk (S c) (S e) (w ++ w0) Hpre' Hi Hne) as [w' Hw'].
+      exists w'. rewrite Hw', !Nat.add_succ_r. reflexivity.
+  Qed.
+
+  Lemma armor_transparent :
+    forall (cs : nat) (pl : enc_plan) (p : bytes) (ws : list bytes),
+      concat ws = file_bytes P cs pl p ->
+      dearmor (armor_run ws) = Ok (file_bytes P cs pl p, CleanEOF).
+  Proof. intros cs pl p ws H. rewrite <- H. apply dearmor_armor_run. Qed.
+
+  (** * C01 (header layer) *)
+
+  Section Crypto.
+    Hypothesis HA : AeadCorrect P.
+    Hypothesis HD : DhAgree P.
+    Hypothesis HL : DhLen P.
+    Hypothesis HR : RsaCorrect P.
+
+    Lemma sized_open : forall k fk, length fk = 16 ->
+      aead_decrypt_sized P k file_key_size (aead_seal P k zero_nonce fk) = Ok fk.
+    Proof.
+      intros k fk Hfk. unfold aead_decrypt_sized. destruct HA as [Ho Hl].
+      rewrite Hl, Hfk, Ho. reflexivity.
+    Qed.
+
+    Lemma own_stanza_opens :
+      forall (i : identity) (r : recipient) (fk tape tape' : bytes) st l,
+        matches P i r -> length fk = 16%nat ->
+        wrap P r fk tape = Ok (st, l, tape') ->
+        st <> [] /\ Forall (fun s => fst (unwrap_one P i s) = Ok fk) st.
+    Proof.
+      intros i r fk tape tape' st l Hm Hfk Hw.
+      destruct i as [sec pub|pass m|blob sec pub|blob|ans],
+               r as [pub'|pass' n|blob' mont|blob'|stz labs fails];
+        cbn [matches] in Hm; try contradiction.
+      - (* X25519 *)
+        destruct Hm as [-> Hpub]. cbn [wrap] in Hw. apply wrap_like_inv in Hw.
+        destruct Hw as (eph & our & ss & Ht & Ho & Hs & _ & ->).
+        split; [discriminate|]. constructor; [|constructor].
+        cbn [unwrap_one]. unfold nolog. cbn [fst]. unfold unwrap_x25519.
+        cbn [st_type st_args st_body app].
+        rewrite bytes_eqb_refl. cbn [negb]. rewrite b64_raw_dec_enc, (HL _ _ _ Ho).
+        cbn [Nat.eqb negb].
+        destruct (HD eph sec our pub Ho Hpub) as (s & Hs1 & Hs2).
+        rewrite Hs in Hs1. injection Hs1 as <-. rewrite Hs2.
+        apply sized_open. exact Hfk.
+      - (* scrypt *)
+        destruct Hm as (-> & H1 & H2 & H3). cbn [wrap] in Hw.
+        destruct (take 16 tape) as [[salt t1]|] eqn:E1; [|discriminate Hw].
+        destruct (take 16 t1) as [[rnd t2]|] eqn:E2; [|discriminate Hw].
+        injection Hw as <- _ _.
+        apply agf_take_spec in E1. destruct E1 as [_ L1].
+        split; [discriminate|]. constructor; [|constructor].
+        cbn [unwrap_one]. unfold unwrap_scrypt. cbn [st_type st_args st_body].
+        rewrite bytes_eqb_refl. cbn [negb]. rewrite b64_raw_dec_enc, L1.
+        cbn [Nat.eqb negb].
+        destruct (dec_of_N_roundtrip n H1) as [Hd Ha]. rewrite Hd, Ha. cbn [negb].
+        replace (N.ltb max_int n) with false by (symmetry; apply N.ltb_ge; exact H3).
+        replace (N.ltb m n) with false by (symmetry; apply N.ltb_ge; exact H2).
+        replace (N.eqb n 0) with false by (symmetry; apply N.eqb_neq; lia).
+        cbn [fst]. apply sized_open. exact Hfk.
+      - (* ssh-ed25519 *)
+        destruct Hm as (-> & -> & Hpub). cbn [wrap] in Hw. apply wrap_like_inv in Hw.
+        destruct Hw as (eph & our & ss & Ht & Ho & Hs & _ & ->).
+        split; [discriminate|]. constructor; [|constructor].
+        cbn [unwrap_one]. unfold nolog. cbn [fst]. unfold unwrap_ssh_ed.
+        cbn [st_type st_args st_body app].
+        rewrite !bytes_eqb_refl. cbn [negb]. rewrite b64_raw_dec_enc, (HL _ _ _ Ho).
+        cbn [Nat.eqb negb].
+        destruct (HD eph sec our pub Ho Hpub) as (s & Hs1 & Hs2).
+        rewrite Hs in Hs1. injection Hs1 as <-. rewrite Hs2.
+        rewrite (proj1 HA). reflexivity.
+      - (* ssh-rsa *)
+        subst blob'. cbn [wrap] in Hw.
+        destruct (take 32 tape) as [[coins t1]|] eqn:E1; [|discriminate Hw].
+        injection Hw as <- _ _.
+        split; [discriminate|]. constructor; [|constructor].
+        cbn [unwrap_one]. unfold nolog. cbn [fst]. unfold unwrap_ssh_rsa.
+        cbn [st_type st_args st_body].
+        rewrite !bytes_eqb_refl. cbn [negb]. rewrite HR. reflexivity.
+    Qed.
+
+    (** Guarded: the SSH tag is the base64 of the first four bytes of the key
+        hash, an empty hash would give an empty (invalid) argument; see
+        [native_stanzas_wf_refuted]. *)
+    Lemma native_stanzas_wf :
+      forall (r : recipient) (fk tape tape' : bytes) st l,
+        (match r with RStub _ _ _ => False | _ => True end) ->
+        (match r with RSshEd blob _ | RSshRsa blob => sha256 P blob <> [] | _ => True end) ->
+        wrap P r fk tape = Ok (st, l, tape') -> Forall (fun s => wf_stanza s = true) st.
+    Proof.
+      intros r fk tape tape' st l Hr Hsha Hw.
+      assert (Htag : forall blob, sha256 P blob <> [] -> valid_string (ssh_tag P blob) = true).
+      { intros blob Hb. unfold ssh_tag. apply b64_enc_raw_valid.
+        destruct (sha256 P blob); [contradiction|discriminate]. }
+      destruct r as [pub|pass logN|blob mont|blob|stz labs fails]; [| | | |contradiction];
+        cbn [wrap] in Hw.
+      - apply wrap_like_inv in Hw. destruct Hw as (eph & our & ss & Ht & Ho & Hs & _ & ->).
+        constructor; [|constructor]. unfold wf_stanza. cbn [st_type st_args app forallb].
+        rewrite b64_enc_raw_valid by (apply (agf_length_nonnil _ 31); exact (HL _ _ _ Ho)).
+        reflexivity.
+      - destruct (take 16 tape) as [[salt t1]|] eqn:E1; [|discriminate Hw].
+        destruct (take 16 t1) as [[rnd t2]|] eqn:E2; [|discriminate Hw].
+        injection Hw as <- _ _. apply agf_take_spec in E1. destruct E1 as [_ L1].
+        constructor; [|constructor]. unfold wf_stanza. cbn [st_type st_args forallb].
+        rewrite b64_enc_raw_valid by (apply (agf_length_nonnil _ 15); exact L1).
+        rewrite dec_of_N_valid. reflexivity.
+      - apply wrap_like_inv in Hw. destruct Hw as (eph & our & ss & Ht & Ho & Hs & _ & ->).
+        constructor; [|constructor]. unfold wf_stanza. cbn [st_type st_args app forallb].
+        rewrite Htag by exact Hsha.
+        rewrite b64_enc_raw_valid by (apply (agf_length_nonnil _ 31); exact (HL _ _ _ Ho)).
+        reflexivity.
+      - destruct (take 32 tape) as [[coins t1]|] eqn:E1; [|discriminate Hw].
+        injection Hw as <- _ _.
+        constructor; [|constructor]. unfold wf_stanza. cbn [st_type st_args forallb].
+        rewrite Htag by exact Hsha. reflexivity.
+    Qed.
+
+    Lemma header_opens :
+      forall (rs : list recipient) (tape : bytes) (pl : enc_plan) (k : nat) (r : recipient)
+             (i : identity) (results : list (list stanza * list bytes)) (fk_tape tape' : bytes),
+        plan_encrypt P rs tape = Ok pl ->
+        take file_key_size tape = Some (ep_file_key pl, fk_tape) ->
+        wrap_each P rs (ep_file_key pl) fk_tape = Ok (results, tape') ->
+        nth_error rs k = Some r -> matches P i r ->
+        (match i with IScrypt _ _ => length (ep_stanzas pl) = 1%nat | _ => True end) ->
+        Forall (fun s => fst (unwrap_one P i s) = Err EIncorrect)
+               (concat (map fst (firstn k results))) ->
+        ep_stanzas pl = concat (map fst results) /\
+        fst (unwrap P i (ep_stanzas pl)) = Ok (ep_file_key pl).
+    Proof.
+      intros rs tape pl k r i results fk_tape tape' Hp Ht He Hk Hm Hi Hb.
+      apply plan_encrypt_inv in Hp.
+      destruct Hp as (_ & fk & t1 & ss & t2 & nonce & t3 & Hk' & Hw & Hn & ->).
+      cbn [ep_file_key ep_stanzas] in *.
+      rewrite Hk' in Ht. injection Ht as <-.
+      apply wrap_all_each in Hw. destruct Hw as (res0 & He0 & Hs).
+      rewrite He0 in He. injection He as <- <-. cbn [app] in Hs. subst ss.
+      split; [reflexivity|].
+      destruct (wrap_each_nth _ _ _ _ _ _ _ He0 Hk) as (tk & st & l & tk' & Hwk & Hnth).
+      assert (Lfk : length fk = 16) by exact (proj2 (agf_take_spec _ _ _ _ Hk')).
+      destruct (own_stanza_opens i r fk tk tk' st l Hm Lfk Hwk) as [Hne Hall].
+      rewrite unwrap_multi.
+      2:{ destruct i; try exact I; [exact Hi|destruct r; exact Hm]. }
+      rewrite (agf_split_nth _ _ _ _ Hnth), map_app, concat_app.
+      cbn [map concat fst]. rewrite mu_skip_app by exact Hb.
+      destruct st as [|s0 st0]; [contradiction|]. cbn [app].
+      pose proof (Forall_inv Hall) as Hs0. cbn beta in Hs0.
+      rewrite mu_hit; [exact Hs0|]. rewrite Hs0. discriminate.
+    Qed.
+
+    (** Guarded by [HM]: the MAC line only parses back if the MAC has 32 bytes;
+        see [decrypt_roundtrip_refuted]. *)
+    Lemma decrypt_roundtrip :
+      forall (cs : nat) (rs : list recipient) (tape p : bytes) (pl : enc_plan)
+             (pre post : list identity) (i : identity),
+        (forall k m, length (hmac P k m) = 32%nat) ->
+        (0 < cs)%nat ->
+        plan_encrypt P rs tape = Ok pl ->
+        Forall (fun s => wf_stanza s = true) (ep_stanzas pl) ->
+        Forall (fun j => fst (unwrap P j (ep_stanzas pl)) = Err EIncorrect) pre ->
+        fst (unwrap P i (ep_stanzas pl)) = Ok (ep_file_key pl) ->
+        (N.of_nat (length p) < ctr_limit)%N ->
+        exists o w,
+          decrypt_open P (pre ++ i :: post) (file_bytes P cs pl p)
+            = (Ok o, S (length pre), length pre, w) /\
+          do_file_key o = ep_file_key pl /\
+          do_key o = stream_key P (ep_file_key pl) (ep_nonce pl) /\
+          do_payload o = encrypt_spec cs (aead_seal P (do_key o)) p /\
+          (let '(released, oc, attempts) := decrypt_spec cs (aead_open P (do_key o)) (do_payload o) in
+           no_forgery (enc_chunks cs (aead_seal P (do_key o)) 0 p) attempts ->
+           released = p /\ oc = CleanEOF).
+    Proof.
+      intros cs rs tape p pl pre post i HM Hcs Hp Hwf Hpre Hi Hlim.
+      apply plan_encrypt_inv in Hp.
+      destruct Hp as (_ & fk & t1 & ss & t2 & nonce & t3 & Hk & _ & Hn & ->).
+      cbn [ep_file_key ep_stanzas ep_nonce] in *.
+      apply agf_take_spec in Hk. destruct Hk as [_ Lk].
+      apply agf_take_spec in Hn. destruct Hn as [_ Ln].
+      assert (Hwfh : wf_header (mkHeader ss (header_mac P fk ss)) = true).
+      { apply wf_header_spec. cbn [h_stanzas h_mac]. split.
+        - apply forallb_forall. exact (proj1 (Forall_forall _ _) Hwf).
+        - unfold header_mac. apply HM. }
+      assert (Hfk : fk <> []) by (apply (agf_length_nonnil _ 15); exact Lk).
+      destruct (identity_loop_pre pre i post ss fk 0 0 [] Hpre Hi Hfk) as [w' Hloop].
+      rewrite !Nat.add_0_r in Hloop.
+      exists (mkDecOpen (stream_key P fk nonce)
+                        (encrypt_spec cs (aead_seal P (stream_key P fk nonce)) p)
+                        fk (S (length pre))), w'.
+      split.
+      - unfold file_bytes. cbn [ep_header ep_nonce ep_file_key].
+        rewrite (decrypt_open_Ok_intro (pre ++ i :: post) _
+                   (mkHeader ss (header_mac P fk ss))
+                   (nonce ++ encrypt_spec cs (aead_seal P (stream_key P fk nonce)) p)
+                   fk (S (length pre)) (length pre) w').
+        + rewrite (firstn_app_exact _ nonce _ stream_nonce_size Ln),
+                  (skipn_app_exact _ nonce _ stream_nonce_size Ln). reflexivity.
+        + destruct pre; discriminate.
+        + apply marshal_parse. exact Hwfh.
+        + exact Hloop.
+        + reflexivity.
+        + rewrite app_length, Ln. lia.
+      - split; [reflexivity|]. split; [reflexivity|]. split; [reflexivity|].
+        cbn [do_key do_payload]. destruct HA as [Ho Hl].
+        exact (stream_roundtrip cs Hcs (aead_seal P (stream_key P fk nonce))
+                 (aead_open P (stream_key P fk nonce))
+                 (Ho (stream_key P fk nonce)) (Hl (stream_key P fk nonce)) p Hlim).
+    Qed.
+  End Crypto.
+
 End AgeFacts.
+
+Lemma altered_bytes_altered_header :
+  forall (h : header) (rest file' : bytes) (h' : header) (rest' : bytes),
+    wf_header h = true ->
+    parse file' = Ok (h', rest') ->
+    file' <> marshal h ++ rest ->
+    h' <> h \/ rest' <> rest.
+Proof.
+  intros h rest file' h' rest' _ Hp Hne.
+  apply parse_marshal in Hp.
+  destruct (list_eq_dec Byte.byte_eq_dec rest' rest) as [->|Hr]; [left|right; exact Hr].
+  intros ->. apply Hne. symmetry. exact Hp.
+Qed.
+
+(** * Refuted unguarded statements (PROOF_GUIDE procedure) *)
+
+(** [native_stanzas_wf] without its guard on [sha256]: with a hash function
+    returning the empty string the SSH tag argument is empty, which is not a
+    valid stanza argument.  (SHA-256 always returns 32 bytes; the guard is a
+    length fact about the primitive, not about age.) *)
+Lemma native_stanzas_wf_refuted :
+  exists P : Prims, DhLen P /\
+    exists (r : recipient) (fk tape tape' : bytes) st l,
+      (match r with RStub _ _ _ => False | _ => True end) /\
+      wrap P r fk tape = Ok (st, l, tape') /\
+      ~ Forall (fun s => wf_stanza s = true) st.
+Proof.
+  exists (mkPrims (fun _ _ p => p) (fun _ _ c => Some c) (fun _ _ _ => []) (fun _ _ => [])
+                  (fun _ => []) (fun _ _ => None) (fun _ _ _ => [])
+                  (fun _ _ m _ => m) (fun _ _ c => Some c)).
+  split; [intros a p s H; discriminate H|].
+  exists (RSshRsa []), [], (repeat x00 32), [], [mkStanza ty_ssh_rsa [[]] []], [].
+  split; [exact I|]. split; [reflexivity|].
+  intros H. apply Forall_inv in H. vm_compute in H. discriminate H.
+Qed.
+
+(** [decrypt_roundtrip] without [HM]: if [hmac] does not return 32 bytes the
+    footer line written by Encrypt is rejected by Parse ([Err EHeader]), for
+    primitives satisfying every other hypothesis of C01h. *)
+Lemma decrypt_roundtrip_refuted :
+  exists P : Prims, AeadCorrect P /\ DhAgree P /\ DhLen P /\ RsaCorrect P /\
+    exists (cs : nat) (rs : list recipient) (tape p : bytes) (pl : enc_plan)
+           (pre post : list identity) (i : identity),
+      (0 < cs)%nat /\
+      plan_encrypt P rs tape = Ok pl /\
+      Forall (fun s => wf_stanza s = true) (ep_stanzas pl) /\
+      Forall (fun j => fst (unwrap P j (ep_stanzas pl)) = Err EIncorrect) pre /\
+      fst (unwrap P i (ep_stanzas pl)) = Ok (ep_file_key pl) /\
+      (N.of_nat (length p) < ctr_limit)%N /\
+      ~ exists o w, decrypt_open P (pre ++ i :: post) (file_bytes P cs pl p)
+                    = (Ok o, S (length pre), length pre, w).
+Proof.
+  exists (mkPrims (fun _ _ p => p ++ repeat x00 16)
+                  (fun _ _ c => Some (firstn (length c - 16) c))
+                  (fun _ _ _ => []) (fun _ _ => [])
+                  (fun _ => []) (fun _ _ => None) (fun _ _ _ => [])
+                  (fun _ _ m _ => m) (fun _ _ c => Some c)).
+  split.
+  { split; intros k n p; cbn [aead_open aead_seal].
+    - rewrite app_length, repeat_length, Nat.add_sub.
+      rewrite (firstn_app_exact _ p _ (length p) eq_refl). reflexivity.
+    - rewrite app_length, repeat_length. reflexivity. }
+  split; [intros a b pa pb H; discriminate H|].
+  split; [intros a p s H; discriminate H|].
+  split; [intros key label m coins; reflexivity|].
+  exists 1, [RStub [mkStanza [x58] [] []] None false], (repeat x00 32), [],
+         (mkPlan (repeat x00 16) [mkStanza [x58] [] []]
+                 (mkHeader [mkStanza [x58] [] []] []) (repeat x00 16) []),
+         [], [], (IStub (Ok (repeat x00 16))).
+  split; [lia|]. split; [reflexivity|].
+  split; [constructor; [reflexivity|constructor]|].
+  split; [constructor|]. split; [reflexivity|]. split; [reflexivity|].
+  intros (o & w & H). vm_compute in H. discriminate H.
+Qed.
